@@ -1,3 +1,4 @@
+\* C33, faithful model, liveness under weak fairness (no state constraint, no VIEW): every log is eventually acknowledged.
 SPECIFICATION FairSpec
 CONSTANTS
   MaxLogs = 2
@@ -11,4 +12,4 @@ CONSTANTS
   LateAccepts = FALSE
   RecordHist = FALSE
 PROPERTIES
- LiveAllAcceptedSinceReset
+  LiveAllAccepted
